@@ -37,7 +37,7 @@ type M = map[string]any
 
 // scenario is {"cfg":{router,score,flood,px,queue,maxMsg,hosts,files,validator,D,Dlo,Dhi,Dscore,Dout,Dlazy,oppTicks,oppPeers,pruneBackoffS},"acts":[{...},...]}.
 // Besides the world alphabet the driver understands, on the driver-owned topic
-// names (never joined through the world): bsub{t}, bcancel{t}, pubbatch{t,ms:[names][,size]}.
+// names: bsub{t}, bcancel{t}, pubbatch{t,ms:[names][,ls:[bool: local-only]][,size]}.
 type scenario struct {
 	Cfg  M   `json:"cfg"`
 	Acts []M `json:"acts"`
@@ -53,6 +53,16 @@ func getb(m M, k string) bool { b, _ := m[k].(bool); return b }
 func gets(m M, k string) string {
 	s, _ := m[k].(string)
 	return s
+}
+func getbl(m M, k string) []bool {
+	var out []bool
+	if l, ok := m[k].([]any); ok {
+		for _, x := range l {
+			b, _ := x.(bool)
+			out = append(out, b)
+		}
+	}
+	return out
 }
 func getl(m M, k string) []string {
 	var out []string
@@ -293,10 +303,8 @@ func (o *own) topic(t *testing.T, name string) *pubsub.Topic {
 	if tp, ok := o.topics[name]; ok {
 		return tp
 	}
-	tp, err := o.w.NUT.Join(name)
-	if err != nil {
-		t.Fatalf("c19: join %s: %v", name, err)
-	}
+	// the world's handle (joined on first use), so that batch actions also work on topics the world subscribes to
+	tp := o.w.Topic(name)
 	o.topics[name] = tp
 	return tp
 }
@@ -336,18 +344,23 @@ func (o *own) cancel(name string) {
 	o.subs[name] = l[:len(l)-1]
 }
 
-func (o *own) pubBatch(t *testing.T, name string, ms []string, size int) {
+// pubBatch adds one message per name to a MessageBatch (local[i] = with WithLocalPublication(true)) and publishes it.
+func (o *own) pubBatch(t *testing.T, name string, ms []string, local []bool, size int) {
 	tp := o.topic(t, name)
 	if size == 0 {
 		size = 16
 	}
 	var batch pubsub.MessageBatch
-	for _, m := range ms {
+	for i, m := range ms {
 		data := []byte(m + "|")
 		for len(data) < size {
 			data = append(data, '.')
 		}
-		if err := tp.AddToBatch(o.w.Ctx, &batch, data); err != nil {
+		var opts []pubsub.PubOpt
+		if i < len(local) && local[i] {
+			opts = append(opts, pubsub.WithLocalPublication(true))
+		}
+		if err := tp.AddToBatch(o.w.Ctx, &batch, data, opts...); err != nil {
 			o.mu.Lock()
 			o.deliv = append(o.deliv, M{"sub": "publish-error", "topic": name, "m": m + ":" + err.Error()})
 			o.mu.Unlock()
@@ -481,7 +494,7 @@ func runScenario(t *testing.T, out *vh.Out, idx int, s scenario, dir string) {
 				case "bcancel":
 					o.cancel(gets(a, "t"))
 				case "pubbatch":
-					o.pubBatch(t, gets(a, "t"), getl(a, "ms"), geti(a, "size", 0))
+					o.pubBatch(t, gets(a, "t"), getl(a, "ms"), getbl(a, "ls"), geti(a, "size", 0))
 				}
 				// the world step that settles and reports it; "c19" carries the real action
 				w.Do(M{"a": "adv", "ms": 1, "c19": a})
